@@ -940,7 +940,7 @@ def run(ctx):
     _selftest()
     fams = FAMS[ctx.shard::ctx.nshards] if ctx.nshards < len(FAMS) else [FAMS[ctx.shard % len(FAMS)]]
     nsh_per_fam = max(1, ctx.nshards // len(FAMS))
-    total = ctx.scale(2400, 60000)
+    total = ctx.scale(2000, 60000)
     per_fam = total // len(FAMS)
     for fam in fams:
         n_fam = max(8, per_fam // nsh_per_fam)
